@@ -394,3 +394,14 @@ impl<K: Copy, S> VSet<K, S> {
         VSet { m }
     }
 }
+
+/// `slice.to_vec()` without `MaybeUninit` (see the call site in raw_node.rs).
+pub fn clone_vec<T: Clone>(s: &[T]) -> Vec<T> {
+    let mut v = Vec::with_capacity(s.len());
+    let mut i = 0;
+    while i < s.len() {
+        v.push(s[i].clone());
+        i += 1;
+    }
+    v
+}
